@@ -186,8 +186,25 @@ pub fn value_strategy(cfg: ClaimCfg, depth: u32) -> BoxedStrategy<Value> {
             4 => vec((name_strategy(cfg), inner.clone()), 0..6).prop_map(|kv| Value::Object(kv.into_iter().collect())),
             3 => vec(inner.clone(), 0..6).prop_map(Value::Array),
             // prefix-sharing sibling names on purpose
-            1 => (select(&[("a", "ab"), ("a", "a1"), ("k", "k0"), ("a1", "a10"), ("x", "xy"), ("A", "Ab")][..]), inner.clone(), inner.clone())
-                .prop_map(|((k1, k2), v1, v2)| { let mut m = Map::new(); m.insert(k1.into(), v1); m.insert(k2.into(), v2); Value::Object(m) }),
+            2 => (select(&[("a", "ab"), ("a", "a1"), ("k", "k0"), ("a1", "a10"), ("x", "xy"), ("A", "Ab")][..]), inner.clone(), inner.clone())
+                .prop_map(|((k1, k2), v1, v2)| {
+                    // half of the time the shorter-named sibling is an object that has a member named
+                    // like the *rest* of the longer name ("a" -> {"b": …} next to "ab"): a path
+                    // matcher that forgets the delimiter after the name would address it
+                    let mut m = Map::new();
+                    let suffix = &k2[k1.len()..];
+                    let first = if v1.is_object() || v1.is_array() || v1.is_null() {
+                        let mut inner = Map::new();
+                        inner.insert(suffix.to_string(), v1);
+                        inner.insert("other".into(), Value::Bool(true));
+                        Value::Object(inner)
+                    } else {
+                        v1
+                    };
+                    m.insert(k1.into(), first);
+                    m.insert(k2.into(), v2);
+                    Value::Object(m)
+                }),
         ]
     })
     .boxed()
